@@ -20,6 +20,12 @@ pub struct Xf {
 }
 static XF_SCALE: std::sync::atomic::AtomicU64 = std::sync::atomic::AtomicU64::new(0x3ff0000000000000);
 static XF_BASE: std::sync::atomic::AtomicI64 = std::sync::atomic::AtomicI64::new(0);
+/// histograms: every observed value and every bound is shifted down by this amount (so the stored sums are negative);
+/// snapshots are reported as `sum + shift * count`, which is exact for the small integers used
+static XF_SHIFT: std::sync::atomic::AtomicI64 = std::sync::atomic::AtomicI64::new(0);
+fn shift() -> f64 {
+    XF_SHIFT.load(std::sync::atomic::Ordering::Relaxed) as f64
+}
 fn xf() -> Xf {
     Xf { scale: f64::from_bits(XF_SCALE.load(std::sync::atomic::Ordering::Relaxed)), base: XF_BASE.load(std::sync::atomic::Ordering::Relaxed) }
 }
@@ -28,6 +34,7 @@ fn set_xf(o: &Value) {
     let base = o.get("base").and_then(|x| x.as_i64()).unwrap_or(0);
     XF_SCALE.store(scale.to_bits(), std::sync::atomic::Ordering::Relaxed);
     XF_BASE.store(base, std::sync::atomic::Ordering::Relaxed);
+    XF_SHIFT.store(o.get("shift").and_then(|x| x.as_i64()).unwrap_or(0), std::sync::atomic::Ordering::Relaxed);
 }
 
 #[derive(Clone)]
@@ -89,7 +96,7 @@ fn make_obj_inner(o: &Value, kind: &str) -> Obj {
         "gauge" => Obj::Gauge(Gauge::new("g", "h").unwrap()),
         "intgauge" => Obj::IntGauge(IntGauge::new("g", "h").unwrap()),
         "histogram" => {
-            let bounds: Vec<f64> = o["bounds"].as_array().unwrap().iter().map(|x| x.as_f64().unwrap()).collect();
+            let bounds: Vec<f64> = o["bounds"].as_array().unwrap().iter().map(|x| x.as_f64().unwrap() - shift()).collect();
             let via = o.get("via").and_then(|x| x.as_str()).unwrap_or("direct").to_owned();
             let opts = HistogramOpts::new("h", "h").buckets(bounds);
             match via.as_str() {
@@ -147,7 +154,7 @@ fn reg_gather(r: &Registry, cols: &[RegCol]) -> Value {
 
 fn hist_json(hh: &proto::Histogram) -> Value {
     let b: Vec<u64> = hh.get_bucket().iter().map(|b| b.cumulative_count()).collect();
-    json!({"count": hh.get_sample_count(), "sum": num(hh.get_sample_sum()), "b": b})
+    json!({"count": hh.get_sample_count(), "sum": num(hh.get_sample_sum() + shift() * hh.get_sample_count() as f64), "b": b})
 }
 
 fn label_of(m: &proto::Metric, name: &str) -> String {
@@ -234,10 +241,10 @@ pub fn exec(obj: &Obj, loc: &mut Locals, op: &Value) -> Value {
             _ => panic!("op {}", k),
         },
         Obj::Hist { h, vec, reg, via } => match k {
-            "obs" => { h.observe(v); json!(0) }
+            "obs" => { h.observe(v - shift()); json!(0) }
             "flush" => {
                 let l = loc.lh.get_or_insert_with(|| h.local());
-                for x in &vs { l.observe(*x); }
+                for x in &vs { l.observe(*x - shift()); }
                 l.flush();
                 json!(0)
             }
@@ -252,7 +259,11 @@ pub fn exec(obj: &Obj, loc: &mut Locals, op: &Value) -> Value {
                     hist_json(mf[0].get_metric()[0].get_histogram())
                 }
             },
-            "sum" => num(h.get_sample_sum()),
+            "sum" => {
+                let sm = h.get_sample_sum();
+                // (the extra read of the count is made only in shifted scenarios: it is one more atomic step)
+                if shift() != 0.0 { num(sm + shift() * h.get_sample_count() as f64) } else { num(sm) }
+            }
             "count" => json!(h.get_sample_count()),
             _ => panic!("op {}", k),
         },
@@ -310,6 +321,19 @@ pub fn exec(obj: &Obj, loc: &mut Locals, op: &Value) -> Value {
                 _ => panic!("op {}", k),
             }
         }
+    }
+}
+
+fn fin_obs(obj: &Obj, loc: &mut Locals) -> Value {
+    match obj {
+        Obj::Hist { .. } => json!({
+            "collect": exec(obj, loc, &json!({"k": "collect"})),
+            "count": exec(obj, loc, &json!({"k": "count"})),
+            "sum": exec(obj, loc, &json!({"k": "sum"})),
+        }),
+        Obj::CVec(_) | Obj::ICVec(_) | Obj::HVec(_) => json!({"collect": exec(obj, loc, &json!({"k": "collect"}))}),
+        Obj::Reg { .. } => json!({"gather": exec(obj, loc, &json!({"k": "gather"}))}),
+        _ => json!({"get": exec(obj, loc, &json!({"k": "get"}))}),
     }
 }
 
@@ -680,17 +704,23 @@ fn run_job(scen: &Value, names: &[String], job: &Value, budget: usize, want_ops:
     if !nonterm {
         sched.join();
         out.insert("final".into(), project(&obj, &sched, names, &keys));
-        // observations made by the controller after every thread has finished (quiescent state)
-        let mut loc = Locals::default();
-        let fin = match &obj {
-            Obj::Hist { .. } => json!({
-                "collect": exec(&obj, &mut loc, &json!({"k": "collect"})),
-                "count": exec(&obj, &mut loc, &json!({"k": "count"})),
-                "sum": exec(&obj, &mut loc, &json!({"k": "sum"})),
-            }),
-            Obj::CVec(_) | Obj::ICVec(_) | Obj::HVec(_) => json!({"collect": exec(&obj, &mut loc, &json!({"k": "collect"}))}),
-            Obj::Reg { .. } => json!({"gather": exec(&obj, &mut loc, &json!({"k": "gather"}))}),
-            _ => json!({"get": exec(&obj, &mut loc, &json!({"k": "get"}))}),
+        // observations made by the controller after every thread has finished (quiescent state); a collect that never
+        // returns even now (the object was left in a state no collect can get out of) is the outcome `nonterminating`
+        let objc = obj.clone();
+        let (tx, rx) = std::sync::mpsc::channel();
+        std::thread::spawn(move || {
+            let obj = objc;
+            let mut loc = Locals::default();
+            let fin = fin_obs(&obj, &mut loc);
+            let _ = tx.send(fin);
+        });
+        let fin = match rx.recv_timeout(std::time::Duration::from_secs(10)) {
+            Ok(f) => f,
+            Err(_) => {
+                out.insert("fin_hang".into(), json!(true));
+                nonterm = true;
+                json!({})
+            }
         };
         out.insert("fin".into(), fin);
     }
